@@ -33,7 +33,13 @@ class CloneHooks(LineHooks):
     def function(self, ev, node, args, kwargs):
         d = dotted(node.func)
         if d == "json.dumps" and len(args) == 1:
-            return ("jsontext", args[0])
+            a = args[0]
+            if isinstance(a, Abs) and getattr(a.cls, "qualname", None) and \
+                    not a.attrs.get("__builtin__"):
+                # an object of a library class is not JSON serializable
+                from ..tables import Raised
+                raise Raised("builtins.TypeError")
+            return ("jsontext", a)
         if d == "json.loads" and len(args) == 1:
             return Abs(None, label="jsoncopy")
         if d is not None and d.split(".")[-1] == "deepcopy" and len(args) == 1:
@@ -71,6 +77,66 @@ def value_of_class(repo, name, label):
 
 class BuiltinAbs(Abs):
     pass
+
+
+def attrs_stored_by(cls):
+    out = set()
+    for m in cls.methods.values():
+        for n in ast.walk(m.node):
+            if isinstance(n, ast.Attribute) and isinstance(n.ctx, ast.Store) \
+                    and isinstance(n.value, ast.Name) and \
+                    n.value.id == (m.self_name or "self"):
+                out.add(n.attr)
+    return out
+
+
+_TEXT_ONLY = {}
+
+
+def text_only_attrs(cls):
+    """attributes stored on self by the methods that Line.__init__ calls only
+    on the text/list construction path (not on the dictionary path clone()
+    uses), `_version` excepted (it is a constructor keyword)"""
+    if cls in _TEXT_ONLY:
+        return _TEXT_ONLY[cls]
+    init = cls.find_method("__init__")
+    names = set()
+    if init is not None:
+        for st in init.node.body:
+            if isinstance(st, ast.If) and "isinstance(data, dict)" in \
+                    unparse(st.test):
+                for n in ast.walk(ast.Module(body=st.orelse,
+                                             type_ignores=[])):
+                    if isinstance(n, ast.Call) and \
+                            isinstance(n.func, ast.Attribute) and \
+                            isinstance(n.func.value, ast.Name) and \
+                            n.func.value.id == init.self_name:
+                        names.add(n.func.attr)
+    if not names:
+        raise AnalysisError("anchor vanished: Line.__init__ no longer "
+                            "separates construction from a dictionary")
+    stored, seen, work = set(), set(), list(names)
+    while work:
+        m = work.pop()
+        if m in seen:
+            continue
+        seen.add(m)
+        f = cls.find_method(m)
+        if f is None:
+            continue
+        from ..model import walk_no_nested
+        for n in walk_no_nested(f.node):
+            if isinstance(n, ast.Attribute) and isinstance(n.ctx, ast.Store) \
+                    and isinstance(n.value, ast.Name) and \
+                    n.value.id == f.self_name:
+                stored.add(n.attr)
+            if isinstance(n, ast.Call) and isinstance(n.func, ast.Attribute) \
+                    and isinstance(n.func.value, ast.Name) and \
+                    n.func.value.id == f.self_name:
+                work.append(n.func.attr)
+    out = stored - {"_version", "_data", "_datatype"}
+    _TEXT_ONLY[cls] = out
+    return out
 
 
 def run(ctx):
@@ -180,7 +246,9 @@ def run(ctx):
             check_cell(seg, "xx", letter, vc, False, label_extra=":%s" % letter)
     # values stored by library setters: header tags defined on several lines
     hdr = repo.cls("line.Header")
-    check_cell(hdr, "xx", "i", "FieldArray", False, label_extra=":i(multi)")
+    for letter in spec.TAG_DATATYPES:
+        check_cell(hdr, "xx", letter, "FieldArray", False,
+                   label_extra=":%s(multi)" % letter)
     ctx.exhaustive[R] = True
     ctx.notes["copy_action_cells"] = cells
 
@@ -202,7 +270,10 @@ def run(ctx):
         stores = [e for e in out[2] if e[0] == "store" and e[1] == "copy"]
         cpy = hooks.built[-1] if hooks.built else None
         ok = out[0] == "return" and cpy is not None and out[1] is cpy and \
-            cpy.cls is cls and [e[2] for e in stores] == ["_datatype"] and \
+            cpy.cls is cls and \
+            {e[2] for e in stores} <= {"_datatype"} | text_only_attrs(cls) \
+            and "_datatype" in {e[2] for e in stores} and \
+            not any(e[3] is ln.attrs.get(e[2]) for e in stores) and \
             cpy.attrs.get("_datatype") is not dtd and \
             isinstance(cpy.attrs.get("_datatype"), Abs) and \
             cpy.attrs["_datatype"].label == "copy of datatype-dict"
@@ -218,6 +289,83 @@ def run(ctx):
                           "%r, constructor keywords %r" % (
                               out[1], [e[2:] for e in stores],
                               cpy.attrs.get("_ctor_kwargs") if cpy else None))
+    ctx.exhaustive[R] = True
+
+    # ------------------------------------------------------------------
+    R = "C19.construction_attributes"
+    ctx.rule(R, "every attribute that the construction of a line from text "
+             "stores on the line outside _data/_datatype (and that the "
+             "private construction from a dictionary used by clone() does "
+             "not set) is stored into the copy by clone(), as a new object",
+             floor=14)
+    for cls in record_classes(repo):
+        ctx.instance(R)
+        need = text_only_attrs(cls)
+        hooks = CloneHooks(repo)
+        attrs = {a: ["orig:" + a] for a in need}
+        ln = Abs(cls, label="line", _data={}, _datatype=Abs(
+            None, label="datatype-dict"), vlevel=1, _virtual=False,
+            _version="gfa2", _gfa=None, _refs={}, **attrs)
+        out = eval_function(repo, f_clone, [ln], hooks=hooks)
+        stored = {e[2]: e[3] for e in out[2]
+                  if e[0] == "store" and e[1] == "copy"}
+        missing = sorted(a for a in need if a not in stored)
+        shared = sorted(a for a in need if a in stored and
+                        stored[a] is attrs[a])
+        ok = out[0] == "return" and not missing and not shared
+        ctx.oblige(ok)
+        if not ok:
+            ctx.violation(R, f_clone.short, "class=%s" % cls.name,
+                          "attributes set when the line is built from text "
+                          "but absent from (or shared with) its clone: %s" %
+                          (missing + shared))
+    ctx.exhaustive[R] = True
+
+    # ------------------------------------------------------------------
+    R = "C19.immutable_classes"
+    ctx.rule(R, "the library value classes that clone() may share between "
+             "the copy and the original (LastPos, Placeholder, "
+             "AlignmentPlaceholder, ByteArray) have no method that stores "
+             "into the instance after construction, and no function of the "
+             "tree assigns their attributes from outside", floor=4)
+    for name in sorted(immutable):
+        try:
+            c = repo.cls(name)
+        except Exception:
+            continue
+        ctx.instance(R)
+        own_attrs = set()
+        bad = []
+        for m in c.methods.values():
+            for n in ast.walk(m.node):
+                if isinstance(n, ast.Attribute) and \
+                        isinstance(n.ctx, ast.Store) and \
+                        isinstance(n.value, ast.Name) and \
+                        n.value.id == (m.self_name or "self"):
+                    own_attrs.add(n.attr)
+                    if m.name not in ("__init__", "__new__"):
+                        bad.append("%s stores self.%s" % (m.name, n.attr))
+                if m.name == "__new__" and isinstance(n, ast.Attribute) and \
+                        isinstance(n.ctx, ast.Store):
+                    own_attrs.add(n.attr)
+        for f in repo.functions.values():
+            if f.cls is c:
+                continue
+            for n in ast.walk(f.node):
+                if isinstance(n, ast.Attribute) and \
+                        isinstance(n.ctx, ast.Store) and \
+                        n.attr in own_attrs and not (
+                            isinstance(n.value, ast.Name) and
+                            n.value.id in ("self", "cls") and
+                            f.cls is not None and n.attr in
+                            {a for a in attrs_stored_by(f.cls)}):
+                    bad.append("%s assigns .%s" % (f.short, n.attr))
+        ok = not bad
+        ctx.oblige(ok)
+        if not ok:
+            ctx.violation(R, "class " + c.short, "mutators",
+                          "the class is treated as immutable by clone() but "
+                          "%s" % "; ".join(sorted(set(bad))[:4]))
     ctx.exhaustive[R] = True
 
     # ------------------------------------------------------------------
